@@ -51,6 +51,12 @@ func TestVerif_C08_BuildRevalidates(t *testing.T) {
 			res.violate("build %d (%s members): error %v", i+1, step.name, err)
 		}
 	}
+	// a left-recursive root is rejected also when Union options are present (every verdict counts, not the last one)
+	res.Evaluations++
+	res.Distinct++
+	if _, err := participle.Build[r6LeftRec](participle.Union[r6Term](r6Num{})); err == nil {
+		res.violate("Build accepts a left-recursive root grammar when a (sound) Union option is given as well")
+	}
 	// productions the root does not reach are entry points too (ParserForProduction): they are validated as well
 	res.Evaluations++
 	res.Distinct++
@@ -71,6 +77,10 @@ func TestVerif_C08_BuildRevalidates(t *testing.T) {
 
 type r6Plain struct {
 	A string `@Ident`
+}
+type r6LeftRec struct {
+	L *r6LeftRec `@@`
+	T r6Term     `"+" @@`
 }
 
 // ---- C14: a grammar with more productions than any other in the families ----
